@@ -2,8 +2,8 @@
 //!
 //! One breadth-first search over operation histories drives the two real header stores
 //! in lock-step — `InMemoryStore` (snapshot: `async_clone`) and `RedbStore` over a
-//! cloneable in-memory `redb::StorageBackend` (snapshot: the byte image after a clean
-//! close) — both through `EitherStore` so the forwarding layer is exercised too, and
+//! cloneable in-memory `redb::StorageBackend` (snapshot: the byte image between two
+//! operations) — both through `EitherStore` so the forwarding layer is exercised too, and
 //! compares every transition with a reference model written from the property
 //! statements (`BTreeMap`/`BTreeSet`, adjacency known from the fixture).
 //!
@@ -813,19 +813,37 @@ pub async fn fork_free<S: Store>(s: &S, fx: &Fixture, backend: &str) -> Vec<(Str
 // ---------------------------------------------------------------------------------------
 // cloneable redb backend and snapshots
 
+/// Byte-vector backend.  `dead` makes every later access fail: it is set when a snapshot
+/// has been taken, so that `Database::drop` (which would otherwise write a ~1 MB allocator
+/// state table, the dominant cost of a transition) gives up immediately.
 #[derive(Clone, Debug, Default)]
-pub struct ImageBackend(Arc<Mutex<Vec<u8>>>);
+pub struct ImageBackend {
+    data: Arc<Mutex<Vec<u8>>>,
+    dead: Arc<std::sync::atomic::AtomicBool>,
+}
 
 fn oob() -> io::Error {
     io::Error::new(io::ErrorKind::InvalidInput, "access beyond the end of the image")
 }
 
+impl ImageBackend {
+    fn check(&self) -> Result<(), io::Error> {
+        if self.dead.load(Ordering::Relaxed) {
+            Err(io::Error::other("snapshot taken, backend closed"))
+        } else {
+            Ok(())
+        }
+    }
+}
+
 impl redb::StorageBackend for ImageBackend {
     fn len(&self) -> Result<u64, io::Error> {
-        Ok(self.0.lock().unwrap().len() as u64)
+        self.check()?;
+        Ok(self.data.lock().unwrap().len() as u64)
     }
     fn read(&self, offset: u64, len: usize) -> Result<Vec<u8>, io::Error> {
-        let g = self.0.lock().unwrap();
+        self.check()?;
+        let g = self.data.lock().unwrap();
         let o = usize::try_from(offset).map_err(|_| oob())?;
         match o.checked_add(len) {
             Some(e) if e <= g.len() => Ok(g[o..e].to_vec()),
@@ -833,14 +851,16 @@ impl redb::StorageBackend for ImageBackend {
         }
     }
     fn set_len(&self, len: u64) -> Result<(), io::Error> {
-        self.0.lock().unwrap().resize(usize::try_from(len).map_err(|_| oob())?, 0);
+        self.check()?;
+        self.data.lock().unwrap().resize(usize::try_from(len).map_err(|_| oob())?, 0);
         Ok(())
     }
     fn sync_data(&self, _eventual: bool) -> Result<(), io::Error> {
-        Ok(())
+        self.check()
     }
     fn write(&self, offset: u64, data: &[u8]) -> Result<(), io::Error> {
-        let mut g = self.0.lock().unwrap();
+        self.check()?;
+        let mut g = self.data.lock().unwrap();
         let o = usize::try_from(offset).map_err(|_| oob())?;
         match o.checked_add(data.len()) {
             Some(e) if e <= g.len() => {
@@ -854,7 +874,8 @@ impl redb::StorageBackend for ImageBackend {
 
 const PAGE: usize = 4096;
 
-/// Byte image of a cleanly closed database, zero pages elided.
+/// Byte image of the database between two operations (every transaction finished; the
+/// image is what a process kill would leave, redb repairs it on open), zero pages elided.
 #[derive(Debug, Default)]
 pub struct Sparse {
     len: usize,
@@ -891,12 +912,19 @@ pub struct Live {
     backend: ImageBackend,
 }
 
+pub static OPEN_NS: [AtomicU64; 3] = [AtomicU64::new(0), AtomicU64::new(0), AtomicU64::new(0)];
+
 async fn open_redb(image: Vec<u8>) -> Result<(Either, ImageBackend), String> {
-    let backend = ImageBackend(Arc::new(Mutex::new(image)));
+    let t0 = std::time::Instant::now();
+    let backend = ImageBackend { data: Arc::new(Mutex::new(image)), dead: Default::default() };
     let db = redb::Database::builder()
         .create_with_backend(backend.clone())
         .map_err(|e| format!("redb open: {e}"))?;
+    let t1 = std::time::Instant::now();
     let store = RedbStore::new(Arc::new(db)).await.map_err(|e| format!("RedbStore::new: {e}"))?;
+    OPEN_NS[0].fetch_add((t1 - t0).as_nanos() as u64, Ordering::Relaxed);
+    OPEN_NS[1].fetch_add(t1.elapsed().as_nanos() as u64, Ordering::Relaxed);
+    OPEN_NS[2].fetch_add(1, Ordering::Relaxed);
     Ok((EitherStore::Right(store), backend))
 }
 
@@ -905,12 +933,18 @@ impl Live {
         let (redb, backend) = open_redb(vec![]).await?;
         Ok(Live { mem: EitherStore::Left(InMemoryStore::new()), redb, backend })
     }
-    /// Closes the database cleanly and returns the snapshots.
+    /// Takes the snapshots (all operations have been awaited, so no transaction is open)
+    /// and discards the live objects.
     pub async fn freeze(self) -> (Arc<Either>, Arc<Sparse>) {
         let Live { mem, redb, backend } = self;
-        let _ = redb.close().await; // waits for blocking tasks, then drops the Database
-        let img = std::mem::take(&mut *backend.0.lock().unwrap());
+        backend.dead.store(true, Ordering::Relaxed);
+        let img = std::mem::take(&mut *backend.data.lock().unwrap());
+        let _ = call(async move { drop(redb) }).await;
         (Arc::new(mem), Arc::new(Sparse::compress(&img)))
+    }
+    pub async fn discard(self) {
+        self.backend.dead.store(true, Ordering::Relaxed);
+        let _ = call(async move { drop(self.redb) }).await;
     }
 }
 
@@ -945,6 +979,8 @@ pub struct Env {
     pub extended_checked: AtomicU64,
     pub image_bytes_max: AtomicU64,
     pub machinery: Mutex<Option<String>>,
+    /// cumulative nanoseconds: thaw, apply, observe, extended, c21, correction, freeze
+    pub prof: [AtomicU64; 7],
 }
 
 impl Env {
@@ -963,7 +999,14 @@ impl Env {
             extended_checked: AtomicU64::new(0),
             image_bytes_max: AtomicU64::new(0),
             machinery: Mutex::new(None),
+            prof: Default::default(),
         }
+    }
+
+    fn lap(&self, i: usize, t: &mut std::time::Instant) {
+        let now = std::time::Instant::now();
+        self.prof[i].fetch_add((now - *t).as_nanos() as u64, Ordering::Relaxed);
+        *t = now;
     }
 
     fn machinery(&self, msg: String) {
@@ -1008,6 +1051,7 @@ impl Env {
     async fn step_async(&self, st: &St, op: &Op) -> Step<St> {
         let fx = &self.fx;
         let mut all: Vec<(Which, String, String)> = vec![];
+        let mut t = std::time::Instant::now();
         let live = match self.thaw(st).await {
             Ok(l) => l,
             Err(e) => {
@@ -1020,6 +1064,7 @@ impl Env {
                 };
             }
         };
+        self.lap(0, &mut t);
         let mut model = st.model.clone();
         let want = model.apply(fx, op);
         if want == Kind::Undefined {
@@ -1027,8 +1072,10 @@ impl Env {
         }
         let got_mem = apply_real(&live.mem, fx, op).await;
         let got_redb = apply_real(&live.redb, fx, op).await;
+        self.lap(1, &mut t);
         let obs_mem = observe(&live.mem, fx, false).await;
         let obs_redb = observe(&live.redb, fx, false).await;
+        self.lap(2, &mut t);
         let want_obs = model.observe(fx, false);
         let key = state_key(&obs_mem, &obs_redb);
 
@@ -1055,6 +1102,7 @@ impl Env {
                 all.push((Which::C19, format!("{name}-pruned-overlaps-stored"), format!("{name}: pruned {pruned:?} stored {stored:?}")));
             }
         }
+        self.lap(2, &mut t);
         // extended queries (get_range over every bound pair): once per distinct state
         let first_visit = self.seen_ext.lock().unwrap().insert(key);
         if first_visit {
@@ -1068,6 +1116,7 @@ impl Env {
             }
         }
 
+        self.lap(3, &mut t);
         // ---- C21: fork-free, hash-linked, hash index (every reached state)
         for (name, s) in [("inmemory", &live.mem), ("redb", &live.redb)] {
             for (k, what) in fork_free(s, fx, name).await {
@@ -1075,6 +1124,7 @@ impl Env {
             }
         }
 
+        self.lap(4, &mut t);
         // ---- C20: a failed operation changes nothing; the corrected batch goes in
         let mut unchanged = true;
         for (name, got, before, after) in [
@@ -1137,13 +1187,15 @@ impl Env {
             // nothing changed: the successor is the parent (same key, dropped by dedup)
             next_snap = Some((st.mem.clone(), st.redb.clone()));
         }
+        self.lap(5, &mut t);
         let (mem, redb) = match next_snap {
             Some(x) => {
-                drop(live);
+                live.discard().await;
                 x
             }
             None => live.freeze().await,
         };
+        self.lap(6, &mut t);
         self.image_bytes_max.fetch_max(redb.bytes() as u64, Ordering::Relaxed);
 
         let class = format!(
@@ -1204,7 +1256,7 @@ transitions = executions of the real operation on both backends";
 pub const ASSUMPTIONS: &[&str] = &[
     "header bytes, keys and CIDs are payload (random generator / VERIF_SEED); oracles use identities (chain, height) only; the fixture's parent relation is validated against the real verify_adjacent for every ordered pair at start-up",
     "header times lie two hours in the past, one second apart: the wall-clock checks inside verify() cannot flip during a run",
-    "the redb database lives in an in-memory StorageBackend; a snapshot is the byte image after a clean close (crash images are C22's subject)",
+    "the redb database lives in an in-memory StorageBackend; a snapshot is the byte image between two operations, reopened through redb's normal repair-on-open (crash images inside an operation are C22's subject)",
     "batches passed through `unsafe new_unchecked` are limited to those whose only defect is a duplicated hash; other contract-violating batches (non-consecutive heights, unlinked headers) have no specified behaviour and are not generated",
     "sampling metadata is compared as a set of CIDs (the statement fixes accumulation, not order)",
     "histories longer than the depth bound, more than two chains, and heights above N+1 are outside the bound",
@@ -1256,6 +1308,18 @@ pub fn run(id: &str, which: Which) -> ! {
     rep.extra("corrected_batches_expected_ok", json!(env.corrections_accepted.load(Ordering::Relaxed)));
     rep.extra("states_with_extended_get_range_queries", json!(env.extended_checked.load(Ordering::Relaxed)));
     rep.extra("redb_image_nonzero_bytes_max", json!(env.image_bytes_max.load(Ordering::Relaxed)));
+    let prof: Vec<f64> = env.prof.iter().map(|a| a.load(Ordering::Relaxed) as f64 / 1e9).collect();
+    rep.extra("cpu_seconds_thaw_apply_observe_extended_c21_correction_freeze", json!(prof));
+    if std::env::var("LV_STORE_PROF").is_ok() {
+        eprintln!("prof (s) thaw/apply/observe/extended/c21/correction/freeze: {prof:?}");
+        eprintln!(
+            "open: db {:.3}s store-new {:.3}s count {}  image bytes max {}",
+            OPEN_NS[0].load(Ordering::Relaxed) as f64 / 1e9,
+            OPEN_NS[1].load(Ordering::Relaxed) as f64 / 1e9,
+            OPEN_NS[2].load(Ordering::Relaxed),
+            env.image_bytes_max.load(Ordering::Relaxed)
+        );
+    }
     rep.extra("bounds", json!({"N": env.bd.n, "L": env.bd.max_len, "D": env.bd.max_dup_len, "depth": env.bd.depth}));
     rep.extra("oracle", Value::String(match which {
         Which::C19 => "C19: result kind + total observation of both backends equal the reference model; sampled within stored; pruned disjoint from stored",
